@@ -44,12 +44,16 @@ func (w *recLW) Close() error { return nil }
 
 type recLS struct{ recW }
 
-func (w *recLS) SetLevel(l slog.Level) { events = append(events, event{W: w.id, Kind: "set", Lvl: int(l)}) }
+func (w *recLS) SetLevel(l slog.Level) {
+	events = append(events, event{W: w.id, Kind: "set", Lvl: int(l)})
+}
 
 type recLWLS struct{ recW }
 
-func (w *recLWLS) Close() error          { return nil }
-func (w *recLWLS) SetLevel(l slog.Level) { events = append(events, event{W: w.id, Kind: "set", Lvl: int(l)}) }
+func (w *recLWLS) Close() error { return nil }
+func (w *recLWLS) SetLevel(l slog.Level) {
+	events = append(events, event{W: w.id, Kind: "set", Lvl: int(l)})
+}
 
 var pool = map[int]io.Writer{
 	1: &recW{1}, 2: &recW{2}, 3: &recLW{recW{3}}, 4: &recLW{recW{4}}, 5: &recLS{recW{5}}, 6: &recLWLS{recW{6}},
